@@ -53,11 +53,20 @@ def oracle(ctx, seeds=None):
         for mname, m in (('euler1d', impl.euler.euler1d(gamma=g)), ('nozzle', None)):
             u = M * c
             W = [np.full(n, r), np.full(n, u), np.full(n, p)]
-            sect = lambda x: 1.0 + 0.5 * x
+            s1, s2 = float(rng.uniform(0.1, 0.9)), float(rng.uniform(0, 0.5))
+            sect = lambda x, s1=s1, s2=s2: 1.0 + s1 * x + s2 * x * x
             if mname == 'nozzle':
                 m = impl.euler.nozzle(sect, gamma=g)
-                msh = impl.mesh.unimesh(ncell=n, length=1.0)
-                ok, e = impl.guarded(m.initdisc, msh)
+                # the model is first bound to another mesh of the same size and asked for its variables, then re-discretised
+                # (what modeldisc.fvm() does at construction): nothing of the first mesh may survive
+                msh0 = impl.mesh.unimesh(ncell=n, length=1.0)
+                ok, e = impl.guarded(m.initdisc, msh0)
+                if i % 2:
+                    impl.guarded(lambda: [m.nameddata(nm_, m.prim2cons([np.full(n, 1.0), np.full(n, 0.3), np.full(n, 1.0)])) for nm_ in m.list_var()])
+                    msh = impl.mesh.unimesh(ncell=n, length=float(rng.uniform(0.5, 3)), x0=float(rng.uniform(-1, 2)))
+                    ok, e = impl.guarded(m.initdisc, msh)
+                else:
+                    msh = msh0
             ok, Q = impl.guarded(m.prim2cons, W)
             if not ok:
                 res.fail(mname + ':prim2cons-raised', Q, dict(model=mname, gamma=g, W=(r, u, p))); continue
